@@ -16,6 +16,8 @@ import GitAiModel.Driver.Routing
 import GitAiModel.Driver.Profile
 import GitAiModel.Driver.Sys
 import GitAiModel.Driver.Conc
+import GitAiModel.Driver.Wrapper
+import GitAiModel.Driver.HookMode
 namespace GitAi.Driver
 open Lean
 
@@ -33,7 +35,9 @@ def handlers : List (String → Json → Option (Except String Json)) := [
   RoutingD.handle,
   ProfileD.handle,
   SysD.handle,
-  ConcD.handle
+  ConcD.handle,
+  WrapperD.handle,
+  HookModeD.handle
 ]
 
 end GitAi.Driver
